@@ -131,7 +131,7 @@ class WriterNumbers:
             return
         try:
             from . import inline
-            fn = inline.normalize(self.repo, owner, fn)
+            fn = inline.normalize(self.repo, owner, fn, aliases=True)
             self.block(stmts_of(fn), fn, owner, dict(env), guard, {})
         finally:
             self.depth -= 1
@@ -448,7 +448,8 @@ class _PEval:
         if isinstance(e, ast.Call) and norm(e.func) == "getattr" and len(e.args) >= 2 and norm(e.args[0]) == "self":
             nm = self.value(e.args[1])
             if nm[0] == "c" and isinstance(nm[1], str):
-                if self.repo.lookup(self.ci, nm[1]) is not None:
+                if self.repo.lookup(self.ci, nm[1]) is not None or (len(e.args) == 2 and nm[1].isidentifier()):
+                    # getattr(self, "x") without a default is self.x whatever x is (an instance attribute set in __init__ as well)
                     return ("s", ast.Attribute(value=ast.Name(id="self", ctx=ast.Load()), attr=nm[1], ctx=ast.Load()))
                 if len(e.args) == 3:
                     return self.value(e.args[2])
@@ -555,6 +556,26 @@ class _PEval:
             else:
                 self.sym[nm] = v[1]
             return
+        # a, b = TABLE.get(k, (None, None)): the picked row, bound element by element
+        if isinstance(st, ast.Assign) and len(st.targets) == 1 and isinstance(st.targets[0], (ast.Tuple, ast.List)) \
+                and all(isinstance(t, ast.Name) for t in st.targets[0].elts):
+            v = self.value(st.value)
+            names = [t.id for t in st.targets[0].elts]
+            parts = None
+            if v[0] == "c" and isinstance(v[1], (tuple, list)) and len(v[1]) == len(names):
+                parts = [("c", x) for x in v[1]]
+            elif v[0] == "s" and isinstance(v[1], (ast.Tuple, ast.List)) and len(v[1].elts) == len(names) \
+                    and not any(isinstance(x, ast.Starred) for x in v[1].elts):
+                parts = [self.value(x) for x in v[1].elts]
+            if parts is not None:
+                for nm, pv in zip(names, parts):
+                    self.const.pop(nm, None)
+                    self.sym.pop(nm, None)
+                    if pv[0] == "c":
+                        self.const[nm] = pv[1]
+                    else:
+                        self.sym[nm] = pv[1]
+                return
         # an effect: what it touches
         st2 = copy.deepcopy(st)
         if isinstance(st2, ast.Expr) and isinstance(st2.value, ast.Call):
